@@ -20,6 +20,7 @@ package %s
 
 import (
 	"context"
+	"crypto/rc4"
 	"crypto/sha1"
 	"strconv"
 
@@ -112,6 +113,7 @@ func vHavocBytes(b []byte, name string) {}
 func vLiveContext() context.Context { return context.Background() }
 func vUnsafeClass(k int)        {}
 func vTickers(mask, budget int) {}
+func vCipherPos(c *rc4.Cipher) int { return 0 }
 func vOutUnsafe() bool          { return false }
 func vLastEncoded() interface{} { return nil }
 func vAnd(a, b bool) bool       { return a && b }
